@@ -670,27 +670,63 @@ theorem matchLoop_asc {key : S} {k : Cls} (hk : cls key = some k) (cells : List 
         List.length_cons]
       congr 2; omega
 
-theorem ascendingE_spec (cells : List S) (xs : List Cls) (hc : cells.map cls = xs.map some) :
-    ascendingE cells = .ok (Spec.C15.ascending xs) := by
-  induction cells generalizing xs with
-  | nil =>
+theorem ltE_cls {a b : S} {x y : Cls} (ha : cls a = some x) (hb : cls b = some y) :
+    ltE a b = .ok (Cls.ltb x y) := by
+  obtain ⟨_, hl, _, _⟩ := cmpE_cls ha hb
+  cases a <;> simp_all [ltE, cls]
+
+/-- `count_run` on non-descending classified data takes everything -/
+theorem extendRun_ascending (prev : Item) (acc rest : List Item) (p : Cls) (xs : List Cls)
+    (hp : cls prev.2 = some p) (hc : rest.map (fun it => cls it.2) = xs.map some)
+    (hasc : Spec.C15.ascending (p :: xs) = true) :
+    extendRun false prev acc rest = .ok (rest.reverse ++ acc, []) := by
+  induction rest generalizing prev acc p xs with
+  | nil => simp [extendRun]
+  | cons it rest ih =>
     cases xs with
-    | nil => rfl
-    | cons x xs' => simp at hc
-  | cons a rest ih =>
-    obtain ⟨x, xs', rfl, ha, hrest⟩ := classified_cons hc
-    cases rest with
-    | nil =>
-      cases xs' with
-      | nil => rfl
-      | cons y ys => simp at hrest
-    | cons b rest' =>
-      obtain ⟨y, ys, rfl, hb, hrest'⟩ := classified_cons hrest
-      obtain ⟨_, hl, _, _⟩ := cmpE_cls hb ha
-      have := ih (y :: ys) hrest
-      cases hyx : Cls.ltb y x with
-      | true => simp [ascendingE, hl, hyx, Spec.C15.ascending, leb_iff_not_ltb]
-      | false => simp [ascendingE, hl, hyx, Spec.C15.ascending, leb_iff_not_ltb, this]
+    | nil => simp at hc
+    | cons x xs' =>
+      simp only [List.map_cons, List.cons.injEq] at hc
+      obtain ⟨hit, hrest⟩ := hc
+      simp only [Spec.C15.ascending, Bool.and_eq_true] at hasc
+      have hlt : Cls.ltb x p = false := by
+        have := hasc.1; rw [leb_iff_not_ltb] at this; simpa using this
+      simp [extendRun, ltE_cls hit hp, hlt, ih it (it :: acc) x xs' hit hrest hasc.2]
+
+theorem listNe_self (l : List Item) : listNe l l = .ok false := by
+  induction l with
+  | nil => rfl
+  | cons a r ih => simp [listNe, ih]
+
+/-- **the sortedness test passes on ascending classified data** (whatever its length): `sorted`
+    finds one non-descending run and returns the very same elements in the same places. -/
+theorem sortedNe_ascending (cells : List S) (xs : List Cls) (hc : cells.map cls = xs.map some)
+    (hasc : Spec.C15.ascending xs = true) : sortedNe false cells = .ok (some false) := by
+  have key : ∀ (items : List Item), items.map (fun it => cls it.2) = xs.map some →
+      sortItems items = .ok (some items) := by
+    intro items hi
+    match items, xs, hi, hasc with
+    | [], _, _, _ => rfl
+    | [_], _, _, _ => rfl
+    | a :: b :: rest, [], hi, _ => simp at hi
+    | a :: b :: rest, [_], hi, _ => simp at hi
+    | a :: b :: rest, x :: y :: ys, hi, hasc =>
+      simp only [List.map_cons, List.cons.injEq] at hi
+      obtain ⟨ha, hb, hrest⟩ := hi
+      simp only [Spec.C15.ascending, Bool.and_eq_true] at hasc
+      have hlt : Cls.ltb y x = false := by
+        have := hasc.1; rw [leb_iff_not_ltb] at this; simpa using this
+      have he := extendRun_ascending b [b, a] rest y ys hb hrest hasc.2
+      simp [sortItems, ltE_cls hb ha, hlt, he]
+  have hitems : (cells.zipIdx.map fun (x, i) => (i, x)).map (fun it => cls it.2) = xs.map some := by
+    rw [← hc]
+    simp only [List.map_map, Function.comp_def]
+    have : ∀ (l : List S) (k : Nat), (l.zipIdx k).map (fun x => cls x.1) = l.map cls := by
+      intro l; induction l with
+      | nil => intro k; rfl
+      | cons a r ih => intro k; simp [List.zipIdx_cons, ih]
+    exact this cells 0
+  simp only [sortedNe, Bool.false_eq_true, if_false, key _ hitems, listNe_self]
 
 /-- nothing qualifies → `lastLe` is 0 -/
 theorem lastLe_none (k : Cls) (xs : List Cls) (h : ∀ x ∈ xs, Spec.C15.leb x k = false) :
@@ -752,10 +788,9 @@ theorem match_approx_refines {key : S} {k : Cls} (hk : cls key = some k) (cells 
   | nil => exact absurd rfl hne
   | cons c r =>
     have hl := matchLoop_asc hk (c :: r) xs hc 0
-    have ha := ascendingE_spec (c :: r) xs hc
+    have ha := sortedNe_ascending (c :: r) xs hc hasc
     have hf := flatten_singletons (c :: r)
     simp only [List.map_cons] at hf
-    rw [hasc] at ha
     rw [Nat.zero_add, ← lastLe_ascending k xs hasc, posOrNa_eq] at hl
     cases key with
     | err e => exact absurd rfl (hkey e)
